@@ -259,10 +259,46 @@ def reader_demand_rule(ctx, facts, cfg):
         ctx.violation(rid, '<floor>', 'length demands', 'only %d type-dependent length demands found in rr_ip, expected 4 (two assertions, two sub-slices)' % n, kind='below-floor', config=cfg)
 
 
+class _NoneAu(Automaton):
+    """state (a record count was found to be zero on this path, None sites reached without that)"""
+    init = (False, frozenset())
+    COUNTS = ('dns_sector::DNSSector::qdcount', 'dns_sector::DNSSector::ancount', 'dns_sector::DNSSector::nscount', 'dns_sector::DNSSector::arcount')
+
+    def __init__(self, key):
+        self.key = key
+        self._defs = None
+
+    def _is_count(self, f, defs, discr, x):
+        rs = F.roots(f, defs, discr)
+        return any((r[0] == 'call' and r[1] in self.COUNTS) or (r[0] == 'load' and F.last_field(r[1]) in ((PP, 'edns_count'), (RRI, 'rrs_left'))) for r in rs) or \
+            (x is not None and ((x[0] == 'call' and x[1] in self.COUNTS) or F.is_load_of(x, PP, 'edns_count') or F.is_load_of(x, RRI, 'rrs_left')))
+
+    def on_edge(self, q, f, bi, t, value, target, env):
+        if f['key'] != self.key:
+            return q
+        if self._defs is None:
+            self._defs = F.single_defs(f)
+        e = F.expr(f, self._defs, t['discr'])
+        truth = (value != 0) if value is not None else all(v == 0 for v, _ in t['targets'])
+        if e[0] == 'binop' and e[3][0] == 'const':
+            zero_when = {('Eq', 0): True, ('Le', 0): True, ('Lt', 1): True, ('Ne', 0): False, ('Gt', 0): False, ('Ge', 1): False}.get((e[1], e[3][1]))
+            if zero_when is not None and self._is_count(f, self._defs, t['discr'], e[2]) and truth == zero_when:
+                return (True, q[1])
+        elif e[0] != 'binop' and value == 0 and self._is_count(f, self._defs, t['discr'], e):
+            return (True, q[1])      # `match count { 0 => .. }`
+        return q
+
+    def on_stmt(self, q, f, bi, s, env):
+        if f['key'] == self.key and s['k'] == 'assign' and not s['place']['proj'] and s['place']['local'] == 0 and s['rv']['k'] == 'aggregate' and s['rv'].get('variant') == 'None' and not q[0]:
+            return (q[0], q[1] | {bi})
+        return q
+
+
 def none_rule(ctx, facts, cfg):
     """C03.f: a walk ends (the step function yields None) only because no records are left: every block that sets the result to None
     is entered solely on the true side of a `<count> == 0` test, <count> being the section's header count, edns_count or rrs_left."""
     rid = 'C03.f'
+    path_bad = {}
     COUNTS = ('dns_sector::DNSSector::qdcount', 'dns_sector::DNSSector::ancount', 'dns_sector::DNSSector::nscount', 'dns_sector::DNSSector::arcount')
     n = 0
     for key, f in sorted(facts.fns.items()):
@@ -299,6 +335,16 @@ def none_rule(ctx, facts, cfg):
                         (x[0] == 'call' and x[1] in COUNTS) or F.is_load_of(x, PP, 'edns_count') or F.is_load_of(x, RRI, 'rrs_left')
                     if not src_ok:
                         why.append('the value compared with 0 is not a record count (%s)' % str(x)[:60])
+                if why:
+                    # the test may sit further back (a helper answering "no record left" with a flag that is tested here): decide on paths
+                    if key not in path_bad:
+                        try:
+                            ex_ = PathFlow(facts, _NoneAu(key)).summary(key, _NoneAu.init)
+                            path_bad[key] = set().union(*[set(q_[1]) for (q_, k_) in ex_]) if ex_ else None
+                        except Exception:  # noqa
+                            path_bad[key] = None
+                    if path_bad[key] is not None and bi not in path_bad[key]:
+                        why = []
                 ctx.instance(rid, '%s: `None` at bb%d is reached only through `count == 0`' % (key.split('::')[-1] if '>' not in key else key.split(' as ')[0].split('::')[-1] + '::next', bi), ok=not why, site=st.get('at'))
                 for w in why[:1]:
                     ctx.violation(rid, key, 'none@%s' % (st.get('at') or bi), 'the walk can end (return None) for a reason other than "no records left": %s; records present in the packet would not be visited' % w,
@@ -546,14 +592,16 @@ def opt_skip(ctx, facts, cfg):
                         if t['k'] != 'switch':
                             continue
                         e = F.expr(f, defs, t['discr'])
-                        if e[0] == 'binop' and e[1] == 'Eq':
+                        if e[0] == 'binop' and e[1] in ('Eq', 'Ne'):
                             sides = [e[2], e[3]]
-                            is_type = any(x[0] == 'call' and x[1].endswith('::rr_type') for x in sides)
+                            is_type = any(x[0] == 'call' and x[1].endswith('::rr_type') for x in sides) or any(r[0] == 'call' and str(r[1]).endswith('::rr_type') for r in F.roots(f, defs, t['discr']))
                             is_opt = any(_enum_const(x) == ('constants::Type', 'OPT') for x in sides)
                             if is_type and is_opt:
-                                # Eq true edge = otherwise (targets list only value 0)
+                                # the edge on which the type IS OPT: the true edge of `==`, the false edge of `!=` (early return for the rest)
                                 true_edges = [t['otherwise']] if all(v == 0 for v, _ in t['targets']) else [tb for v, tb in t['targets'] if v == 1]
-                                if any(te in dom.get(bi, ()) or te == bi for te in true_edges):
+                                false_edges = [tb for v, tb in t['targets'] if v == 0]
+                                eq_edges = true_edges if e[1] == 'Eq' else false_edges
+                                if any(te in dom.get(bi, ()) or te == bi for te in eq_edges):
                                     ok = True
                     ctx.instance(rid, 'OPT-skip advance in %s only when rr_type() == Type::OPT (=%s)' % (k, opt_val), ok=ok, site=s['at'])
                     if not ok:
